@@ -57,7 +57,7 @@ def one(name):
             rc, viol, first = run_check(pid, "quick", wt, out)
             tier = "quick"
             caught_elsewhere = any(c["exit"] == 1 for c in res["checks"].values())
-            if rc != 1 and pid == meta["property"] and not caught_elsewhere:
+            if rc != 1 and pid == meta["property"] and not caught_elsewhere and not meta.get("not_claimed"):
                 rc, viol, first = run_check(pid, "thorough", wt, out)
                 tier = "thorough"
             res["checks"][pid] = {"tier": tier, "exit": rc, "violation_lines": viol, "first": first}
